@@ -20,6 +20,7 @@ def algOf (c : Cfg) : Src.Alg where
   signs := fun p => c.computeSign p.1.toNat p.2.toNat
   len := Int.ofNat (2 ^ c.d)
   bin2canon := c.basis.map fun n => (Int.ofNat (c.binOf n), pyName n)
+  canon2bin := c.basis.map fun n => (pyName n, Int.ofNat (c.binOf n))
   signature := c.signature
   start_index := Int.ofNat c.start
   d := Int.ofNat c.d
